@@ -38,6 +38,10 @@ func init() {
 				// the same way wrapped and inlined
 				o.errAnswers, o.errNoExit = true, true
 			}
+			if idx%4 >= 2 {
+				// half of the pairs run with the instance's events looped back to it (both runs of a pair alike)
+				o.loopEvents = true
+			}
 			seed := rng.U64()
 			out.Begin("c12")
 			// the wrapped run is left idle (not cancelled) while the inlined one runs: a cancelled instance may
